@@ -105,6 +105,8 @@ def _eval_ctx(asg):
                 full[s] = 1 / (1 + sp.exp(-arg.subs(full)))
             elif fname == 'softplus':
                 full[s] = sp.log(1 + sp.exp(arg.subs(full)))
+            elif fname == 'log1p':
+                full[s] = sp.log(1 + arg.subs(full))
             else:
                 raise ValueError(f'symbol {s} of the assumed contract {fname} has no closed form: cross-check skipped')
         for s, rad in c.sqrt.items():
@@ -245,7 +247,7 @@ def verify_identity(contract, shape, tier, rng, crosscheck=2, bounded_samples=0)
         if sa != sb or len(a) != len(b):
             conc = contract.sample(rng, shape)
             ok, failed, info = native_check(contract, conc)
-            out.append(ob(oid, 'refuted' if not ok else 'fault', functions=funcs, tier='P', backend='sympy', witness=jsonable(conc),
+            out.append(ob(oid, 'refuted' if not ok else 'undecided', engine_suspect=bool(ok), functions=funcs, tier='P', backend='sympy', witness=jsonable(conc) if not ok else None,
                           native=dict(confirmed=not ok, failed=failed, info=info), detail=f'shape mismatch {sa} vs {sb}'))
             continue
         bad = None
@@ -306,17 +308,17 @@ def verify_identity(contract, shape, tier, rng, crosscheck=2, bounded_samples=0)
                 nflat, _ = _flat(contract.comparable(nat) if hasattr(contract, 'comparable') else nat)
                 symv = [complex(sp.N(e.subs(asg), 20)) if isinstance(e, sp.Basic) else complex(e) for e in rflat]
                 if len(symv) != len(nflat) or not native_close(symv, [complex(v) for v in nflat], 1e-7):
-                    out.append(ob(f'{base}.crosscheck[{sh}]', 'fault', functions=funcs, tier='P', witness=jsonable(conc),
+                    out.append(ob(f'{base}.crosscheck[{sh}]', 'undecided', engine_suspect=True, functions=funcs, tier='P', witness=jsonable(conc),
                                   detail='symbolic result differs from native execution (engine unsound here)'))
                     break
                 nx += 1
             except ValueError as ex:
                 if 'cross-check skipped' in str(ex):
                     break
-                out.append(ob(f'{base}.crosscheck[{sh}]', 'fault', functions=funcs, tier='P', detail=f'cross-check evaluation failed: {ex}'))
+                out.append(ob(f'{base}.crosscheck[{sh}]', 'undecided', engine_suspect=True, functions=funcs, tier='P', detail=f'cross-check evaluation failed: {ex}'))
                 break
             except TypeError as ex:
-                out.append(ob(f'{base}.crosscheck[{sh}]', 'fault', functions=funcs, tier='P', detail=f'cross-check evaluation failed: {ex}'))
+                out.append(ob(f'{base}.crosscheck[{sh}]', 'undecided', engine_suspect=True, functions=funcs, tier='P', detail=f'cross-check evaluation failed: {ex}'))
                 break
     out.append(ob(f'{base}.meta[{sh}]', 'meta', functions=funcs, tier='P', paths=1, explore_s=round(t_run, 3), crosscheck_inputs=nx, backend='-',
                   symbols=len(syms), root_symbols=len(alg.CTX[0].sqrt), max_rlimit=alg.NRA_RL_MAX[0]))
